@@ -163,6 +163,17 @@ CHECKS['C11'] = (
     'ingredients are, and C01 covers the composition it relies on.',
     BASE_NOTE + 'string order of versions.', '6/C11')
 
+CHECKS['C09'] = (
+    'Lean 4 theorems about the grouping model (every (element, info) pair is held by exactly the groups it should, groups have pairwise different '
+    'information, one group per element; notes: exactly the mentioned keys) + differential execution against references.compact_references / notes + '
+    'containment checks of every rendered format, exhaustive over the reference database',
+    'Proof (on the model): compactGroups_holds, compactGroups_distinct, compactGroups_unique, processNotes_spec, processNotes_mentions. Tie: model groups = '
+    'real groups for every sampled (basis, version, selection) and for generated directories; mentioned-key sets of notes. On the real outputs: partition, '
+    'group information = component data in order, every key and element group mentioned, no key of unselected elements, library citation block, JSON '
+    'parses back, and every stored field value of every entry of REFERENCES.json present in its bib / ris / endnote rendering (exhaustive). '
+    'Partial: the renderers themselves (string formatting, textwrap) are validated, not modelled.',
+    BASE_NOTE + 'textwrap.', '6/C09')
+
 NOT_YET = {}
 
 
